@@ -131,6 +131,7 @@ def apply_defect(ws: dict, df: dict) -> tuple[dict, set[str]]:
 
 class C09(Check):
     PROP = "C09"
+    CRASH_ORACLE = "C09.target"
     HANG_ORACLE = "C09.terminates"
     RULE = ("each run = one generated dependency graph (chains, diamonds, fans, several versions per name, relative and "
             "absolute spellings, cross-root edges), read through read_namespace per root and through read_files with target "
